@@ -144,6 +144,23 @@ func runC15(c *core.Ctx) {
 				t.cases[constInt64(k)] = cs
 			}
 		}
+		// a catalogue split over several switches of the same function (one per command family): their cases
+		// belong to the same table
+		for _, s := range sws {
+			if &s[0] == &best[0] {
+				continue
+			}
+			for _, cs := range s {
+				for _, k := range cs.Consts {
+					if old, dup := t.cases[constInt64(k)]; dup {
+						old.Body = append(append([]ast.Stmt(nil), old.Body...), cs.Body...)
+						t.cases[constInt64(k)] = old
+					} else {
+						t.cases[constInt64(k)] = cs
+					}
+				}
+			}
+		}
 		return t
 	}
 	accessorIn := func(t *table, cs swCase) []*types.Func {
